@@ -328,6 +328,7 @@ class SimHTTPHandler(urllib.request.AbstractHTTPHandler):
 def build_opener(world, realfs):
     o = urllib.request.OpenerDirector()
     o.add_handler(urllib.request.UnknownHandler())
+    o.add_handler(urllib.request.DataHandler())
     o.add_handler(urllib.request.HTTPDefaultErrorHandler())
     o.add_handler(urllib.request.HTTPErrorProcessor())
     o.add_handler(SimHTTPHandler(world))
